@@ -1,0 +1,21 @@
+//! Verification hooks (compiled only with `--cfg rip_verif`; no behaviour change).
+//!
+//! One process-global callback that instrumented code calls at named points.  A harness installs
+//! a callback to park the calling thread (controlled scheduling) or to snapshot on-disk state
+//! (crash points).  With no callback installed `point` returns immediately.
+use std::sync::{Arc, RwLock};
+
+pub type Hook = Arc<dyn Fn(&'static str) + Send + Sync>;
+
+static HOOK: RwLock<Option<Hook>> = RwLock::new(None);
+
+pub fn set_hook(hook: Option<Hook>) {
+    *HOOK.write().unwrap_or_else(|e| e.into_inner()) = hook;
+}
+
+pub fn point(name: &'static str) {
+    let hook = HOOK.read().unwrap_or_else(|e| e.into_inner()).clone();
+    if let Some(hook) = hook {
+        hook(name);
+    }
+}
